@@ -36,7 +36,7 @@ STUB = ["HybridRunner scenario threads run serially (SerialThread)", "agents/mod
 ASSUMPTIONS = ["every agent of a type carries the properties x and n (the property speaks of 'that property over exactly those agents'); a third numeric property y is carried by the agents with odd ids only and is judged for presence, total, minimum and maximum over its carriers, not for its mean",
                "requested states occur at least once during the run (a state that never occurs has no column to compare)"]
 FAULT_KINDS = []
-PROBES = ["property_carried_by_some_agents_only", "group_with_distinct_min_max_mean", "state_empty_then_populated", "negative_and_fractional_values", "agents_deleted_mid_run",
+PROBES = ["two_scenarios_in_one_frame", "two_scenarios_with_different_recorded_times", "property_carried_by_some_agents_only", "group_with_distinct_min_max_mean", "state_empty_then_populated", "negative_and_fractional_values", "agents_deleted_mid_run",
           "format_df", "format_dict", "format_json", "negative_stop_time", "two_scenarios_of_a_class_path_manager"]
 EXHAUSTIVE = {"quick": False, "thorough": False}
 PTYPES = ["total", "min", "max", "mean"]
@@ -247,6 +247,41 @@ def execute(case):
                     v.detail.setdefault("scenario", "s%d" % n)
                 if res.violations:
                     break
+            if two and not res.violations:
+                # both scenarios in ONE call, one frame over the union of their recorded times: each scenario's columns
+                # carry exactly its own times (NaN only where it recorded nothing)
+                try:
+                    df = b.run_scenarios(scenarios=["s0", "s1"], scenario_managers=["smAbm"], agents=["a"], agent_states=["idle"],
+                                         series_names={}, return_format="df")
+                except Exception as e:
+                    df = None
+                    res.violate("C13.2-run_scenarios-raised", {"format": "df", "scenarios": ["s0", "s1"], "exception": type(e).__name__, "message": str(e)[:120]})
+                if df is not None:
+                    res.probe("two_scenarios_in_one_frame")
+                    for n, mm in enumerate(models):
+                        stats_n = mm.statistics()
+                        col = "smAbm_s%d_a_idle" % n
+                        if col not in df.columns:
+                            if any("idle" in stats_n[t].get("a", {}) for t in stats_n):
+                                res.violate("C13.2-series-missing", {"format": "df", "scenario": "s%d" % n, "column": col, "columns": list(df.columns)[:6]})
+                            continue
+                        series = {float(t): v for t, v in df[col].to_dict().items()}
+                        times_n = [float(t) for t in sorted(stats_n)]
+                        # outside its own recorded times a scenario's column is padding (the runner pads with 0, NaN would do too)
+                        stray = [t for t, v in series.items() if t not in times_n and not (v == 0 or (isinstance(v, float) and math.isnan(v)))]
+                        series = {t: v for t, v in series.items() if t in times_n}
+                        if sorted(series) != times_n or stray:
+                            res.violate("C13.2-times", {"format": "df", "scenario": "s%d" % n, "scenarios_in_call": 2, "got": sorted(series)[:6],
+                                                        "expected": times_n[:6], "got_len": len(series), "expected_len": len(times_n)})
+                            break
+                        if len(models) > 1 and sorted(models[0].statistics()) != sorted(models[1].statistics()):
+                            res.probe("two_scenarios_with_different_recorded_times")
+                        for t in times_n:
+                            want = lookup(stats_n, t, "a", "idle")
+                            if not close(series[t], want):
+                                res.violate("C13.2-value", {"format": "df", "scenario": "s%d" % n, "scenarios_in_call": 2, "time": t,
+                                                            "returned": series[t], "statistics": float(want)})
+                                break
             stats = m.statistics()
             snaps = m.world.snaps
             try:
